@@ -34,11 +34,11 @@ pub static DEF: CheckDef = CheckDef {
 
 fn families(t: Tier) -> Vec<(&'static str, u64)> {
     vec![
-        ("unary", t.n(12_000, 120_000)),
+        ("unary", t.n(12_000, 600_000)),
         ("binary", t.n(14_400, 14_400 * 6)),
-        ("matmul", t.n(20_000, 240_000)),
-        ("conv", t.n(10_000, 120_000)),
-        ("large", t.n(600, 20_000)),
+        ("matmul", t.n(20_000, 1_000_000)),
+        ("conv", t.n(10_000, 500_000)),
+        ("large", t.n(600, 100_000)),
     ]
 }
 fn floors(_t: Tier) -> Vec<(&'static str, u64)> {
